@@ -23,8 +23,8 @@ MOD = "vf.checks.c03"
 RULE = (
     "Hypothesis cases: model kind (logistic/linear/shared-speed/joint; scalar/diagonal noise; 0-2 sources) x generated cohort x latent "
     "variable x sampler kind (Gibbs, FastGibbs, Metropolis-Hastings for population variables; individual Gibbs) x inverse temperature in "
-    "{1, (0,0.2), (0.2,1)} x proposal scale factor {0.01..30} x seed x cold/warm cache. One sampler.sample call per case, each block judged "
-    "separately. Non-trivial = beta < 1 and the step contains both an accepted and a rejected decision, or some decision with |log u + D| < 1; "
+    "{1, (0,0.2), (0.2,1)} x proposal scale factor {0.01..30} x seed x cold/warm cache x random or fixed block order x 1-3 consecutive "
+    "sampler.sample calls on the same sampler, each block of each call judged separately. Non-trivial = beta < 1 and the step contains both an accepted and a rejected decision, or some decision with |log u + D| < 1; "
     "distinct by case."
 )
 ASSUMPTIONS = [
@@ -33,7 +33,7 @@ ASSUMPTIONS = [
     "mixture_logistic individual steps (responsibility-weighted regularity) are outside the documented target of the statement and excluded.",
 ]
 REQUIRED_CLASSES = {"step:individual": 200, "step:Gibbs": 60, "step:FastGibbs": 60, "step:Metropolis-Hastings": 60, "beta<1": 300,
-                    "has-accept-and-reject": 100, "near-boundary": 100, "alpha>=1": 50, "nontrivial": 200}
+                    "has-accept-and-reject": 100, "near-boundary": 100, "alpha>=1": 50, "nontrivial": 200, "consecutive-call": 150, "fixed-block-order": 100}
 
 
 class Fail(Exception):
@@ -82,7 +82,8 @@ def run_step(c, case, *, forced_u=None, perturb_others_of=None):
             yv = (yv * 0.8 + 0.05)
             yv[i] = keep
             s["y"] = WeightedTensor(yv, y.weight)
-    algo = observe.make_samplers(s, c["ds"], sampler_pop=case["sampler_pop"])
+    algo = observe.make_samplers(s, c["ds"], sampler_pop=case["sampler_pop"],
+                                 pop_params=None if case.get("random_order", True) else dict(random_order_dimension=False))
     sampler = algo.samplers[name]
     sampler.std = sampler.std * float(case["std_factor"])
     if case["cold"]:
@@ -119,11 +120,19 @@ def run_step(c, case, *, forced_u=None, perturb_others_of=None):
         finally:
             torch.rand = o
 
-    with observe.wrap_method(State, "put", before=before_put, after=after_put), observe.wrap_method(sampler, hook, after=after_dec):
-        with observe.record_rng() as rec:
-            with force_rand():
-                sampler.sample(s, temperature_inv=float(case["beta"]))
-    return dict(state=s, name=name, sampler=sampler, puts=puts, decisions=decisions, rec=rec, post=s._values[name])
+    calls = []
+    for _call in range(1 if (forced_u is not None or perturb_others_of is not None) else int(case.get("n_calls", 1))):
+        puts.clear()
+        decisions.clear()
+        std_used = sampler.std.clone()
+        with observe.wrap_method(State, "put", before=before_put, after=after_put), observe.wrap_method(sampler, hook, after=after_dec):
+            with observe.record_rng() as rec:
+                with force_rand():
+                    sampler.sample(s, temperature_inv=float(case["beta"]))
+        calls.append(dict(state=s, name=name, sampler=sampler, puts=list(puts), decisions=list(decisions), rec=rec, post=fast_copy(s._values[name]), std=std_used))
+    out = dict(calls[0])
+    out["calls"] = calls
+    return out
 
 
 def body(col: Collector, case):
@@ -151,71 +160,89 @@ def body(col: Collector, case):
         except LeaspyModelInputError:
             col.exclude("step-aborted:model-refused-to-evaluate-the-proposed-population-value")
             return
-        s, name, sampler, puts, decisions, rec = r["state"], r["name"], r["sampler"], r["puts"], r["decisions"], r["rec"]
-        zs, us = rec.of("randn"), rec.of("rand")
-        if individual:
-            classes.append("step:individual")
-            blocks = [()]
-        else:
-            classes.append("step:" + case["sampler_pop"])
-            blocks = [tuple(b) for b in (rec.of("shuffle")[-1] if rec.of("shuffle") else sampler._get_iterator_indices())]
-        # accounting
-        if not (len(puts) == len(blocks) == len(decisions) == len(zs)):
-            raise Fail("accounting:proposals-vs-blocks", f"{len(puts)} puts, {len(zs)} normal draws, {len(decisions)} decisions", f"{len(blocks)} blocks")
-        if len(us) != len(decisions):
-            raise Fail("accounting:uniform-draws-vs-decisions", f"{len(us)} uniform draws", f"{len(decisions)} decisions (a draw is consumed for every decision)")
-        for blk, p, d, z, u in zip(blocks, puts, decisions, zs, us):
-            before = p["before"][name]
-            after = p["after"]
-            std = sampler.std
-            # ---- proposal
-            if p["name"] != name:
-                raise Fail("proposal:other-variable-assigned", p["name"], name)
+        first = r
+        for ci, r in enumerate(first["calls"]):
+            s, name, sampler, puts, decisions, rec = r["state"], r["name"], r["sampler"], r["puts"], r["decisions"], r["rec"]
+            if ci:
+                classes.append("consecutive-call")
+            zs, us = rec.of("randn"), rec.of("rand")
             if individual:
-                exp_change = std.reshape((-1,) + (1,) * (before.ndim - 1)) * z
-                exp_after = before + exp_change
-                if tuple(u.shape) != (c["n"],):
-                    raise Fail("accounting:uniform-shape", tuple(u.shape), (c["n"],))
+                classes.append("step:individual")
+                blocks = [()]
             else:
-                exp_after = before.clone()
-                exp_after[blk] = before[blk] + std[blk] * z
-                if tuple(z.shape) != tuple(before[blk].shape):
-                    raise Fail("proposal:draw-shape", tuple(z.shape), tuple(before[blk].shape))
-                if tuple(u.shape) != ():
-                    raise Fail("accounting:uniform-shape", tuple(u.shape), "() - one scalar per block")
-            if not same(after, exp_after):
-                diff = (after != exp_after)
-                raise Fail("proposal:not-std-times-normal-draw-on-block-only", f"after = {brief(after)}", f"before + std_block * z on block {blk} only = {brief(exp_after)}")
-            # ---- acceptance
-            vals_old = dict(p["before"])
-            vals_new = dict(p["before"])
-            vals_new[name] = exp_after
-            alpha_ref, D = _alpha(c, vals_old, vals_new, name, beta, individual)
-            acc = d["accepted"]
-            exp_acc = u < alpha_ref
-            if not bool(torch.equal(torch.as_tensor(acc).to(torch.bool), torch.as_tensor(exp_acc).to(torch.bool))):
-                raise Fail("acceptance:decision-differs-from-u<exp(-D)", f"accepted = {torch.as_tensor(acc).tolist()}",
-                           f"u < exp(-D) = {torch.as_tensor(exp_acc).tolist()} (u = {brief(torch.as_tensor(u).reshape(-1))}, alpha = {brief(torch.as_tensor(alpha_ref).reshape(-1))})")
-            if not same(torch.as_tensor(d["alpha"]).to(alpha_ref.dtype).reshape(alpha_ref.shape), alpha_ref):
-                raise Fail("acceptance:alpha-differs-from-exp(-D)", brief(torch.as_tensor(d["alpha"]).reshape(-1)), brief(alpha_ref.reshape(-1)))
-            accv = torch.as_tensor(acc).to(torch.bool).reshape(-1)
-            n_acc += int(accv.sum())
-            n_rej += int((~accv).sum())
-            margin = (torch.log(torch.as_tensor(u).to(torch.float64).reshape(-1).clamp_min(1e-300)) + torch.as_tensor(D).to(torch.float64).reshape(-1)).abs()
-            if bool((margin < 1).any()):
-                near = True
-            if bool((torch.as_tensor(alpha_ref).reshape(-1) >= 1).any()):
-                classes.append("alpha>=1")
-            if bool((torch.as_tensor(alpha_ref).reshape(-1) == 0).any()):
-                classes.append("alpha=0")
-        # ---- state after (per block semantics): accepted -> proposed, rejected -> previous
-        if individual:
-            accm = decisions[0]["accepted"].to(torch.bool).reshape((-1,) + (1,) * (puts[0]["after"].ndim - 1))
-            exp_post = torch.where(accm, puts[0]["after"], puts[0]["before"][name])
-        else:
-            exp_post = puts[-1]["after"] if bool(decisions[-1]["accepted"]) else puts[-1]["before"][name]
-        if not same(r["post"], exp_post):
-            raise Fail("state-after:latent-value", brief(r["post"]), brief(exp_post))
+                classes.append("step:" + case["sampler_pop"])
+                import numpy as _np
+
+                ref_blocks = [tuple(b) for b in _np.ndindex(tuple(r["std"].shape))]  # one block per scale entry
+                if case.get("random_order", True):
+                    blocks = [tuple(b) for b in rec.of("shuffle")[-1]] if rec.of("shuffle") else []
+                    if sorted(blocks) != sorted(ref_blocks):
+                        raise Fail("accounting:blocks-visited-are-not-a-permutation-of-all-blocks", blocks, ref_blocks)
+                else:
+                    blocks = ref_blocks
+                    classes.append("fixed-block-order")
+            if ci == 0:
+                first_blocks = blocks
+            # accounting
+            if not (len(puts) == len(blocks) == len(decisions) == len(zs)):
+                raise Fail("accounting:proposals-vs-blocks", f"{len(puts)} puts, {len(zs)} normal draws, {len(decisions)} decisions", f"{len(blocks)} blocks")
+            if len(us) != len(decisions):
+                raise Fail("accounting:uniform-draws-vs-decisions", f"{len(us)} uniform draws", f"{len(decisions)} decisions (a draw is consumed for every decision)")
+            for blk, p, d, z, u in zip(blocks, puts, decisions, zs, us):
+                before = p["before"][name]
+                after = p["after"]
+                std = r["std"]  # the scale in force during this call
+                # ---- proposal
+                if p["name"] != name:
+                    raise Fail("proposal:other-variable-assigned", p["name"], name)
+                if individual:
+                    exp_change = std.reshape((-1,) + (1,) * (before.ndim - 1)) * z
+                    exp_after = before + exp_change
+                    if tuple(u.shape) != (c["n"],):
+                        raise Fail("accounting:uniform-shape", tuple(u.shape), (c["n"],))
+                else:
+                    exp_after = before.clone()
+                    exp_after[blk] = before[blk] + std[blk] * z
+                    if tuple(z.shape) != tuple(before[blk].shape):
+                        raise Fail("proposal:draw-shape", tuple(z.shape), tuple(before[blk].shape))
+                    if tuple(u.shape) != ():
+                        raise Fail("accounting:uniform-shape", tuple(u.shape), "() - one scalar per block")
+                if not same(after, exp_after):
+                    diff = (after != exp_after)
+                    raise Fail("proposal:not-std-times-normal-draw-on-block-only", f"after = {brief(after)}", f"before + std_block * z on block {blk} only = {brief(exp_after)}")
+                # ---- acceptance
+                vals_old = dict(p["before"])
+                vals_new = dict(p["before"])
+                vals_new[name] = exp_after
+                alpha_ref, D = _alpha(c, vals_old, vals_new, name, beta, individual)
+                acc = d["accepted"]
+                exp_acc = u < alpha_ref
+                if not bool(torch.equal(torch.as_tensor(acc).to(torch.bool), torch.as_tensor(exp_acc).to(torch.bool))):
+                    raise Fail("acceptance:decision-differs-from-u<exp(-D)", f"accepted = {torch.as_tensor(acc).tolist()}",
+                               f"u < exp(-D) = {torch.as_tensor(exp_acc).tolist()} (u = {brief(torch.as_tensor(u).reshape(-1))}, alpha = {brief(torch.as_tensor(alpha_ref).reshape(-1))})")
+                if not same(torch.as_tensor(d["alpha"]).to(alpha_ref.dtype).reshape(alpha_ref.shape), alpha_ref):
+                    raise Fail("acceptance:alpha-differs-from-exp(-D)", brief(torch.as_tensor(d["alpha"]).reshape(-1)), brief(alpha_ref.reshape(-1)))
+                accv = torch.as_tensor(acc).to(torch.bool).reshape(-1)
+                n_acc += int(accv.sum())
+                n_rej += int((~accv).sum())
+                margin = (torch.log(torch.as_tensor(u).to(torch.float64).reshape(-1).clamp_min(1e-300)) + torch.as_tensor(D).to(torch.float64).reshape(-1)).abs()
+                if bool((margin < 1).any()):
+                    near = True
+                if bool((torch.as_tensor(alpha_ref).reshape(-1) >= 1).any()):
+                    classes.append("alpha>=1")
+                if bool((torch.as_tensor(alpha_ref).reshape(-1) == 0).any()):
+                    classes.append("alpha=0")
+            # ---- state after (per block semantics): accepted -> proposed, rejected -> previous
+            if individual:
+                accm = decisions[0]["accepted"].to(torch.bool).reshape((-1,) + (1,) * (puts[0]["after"].ndim - 1))
+                exp_post = torch.where(accm, puts[0]["after"], puts[0]["before"][name])
+            else:
+                exp_post = puts[-1]["after"] if bool(decisions[-1]["accepted"]) else puts[-1]["before"][name]
+            if not same(r["post"], exp_post):
+                raise Fail("state-after:latent-value", brief(r["post"]), brief(exp_post))
+        r = first["calls"][0]
+        s, name, sampler, puts, decisions, rec = r["state"], r["name"], r["sampler"], r["puts"], r["decisions"], r["rec"]
+        blocks = first_blocks
         # ---- locality (individual steps): other individuals' data and latents perturbed, same draws
         if individual and case["locality"] is not None and c["n"] >= 2:
             i = case["locality"] % c["n"]
@@ -285,6 +312,7 @@ def step_case(draw, kinds):
         beta=draw(st.one_of(st.just(1.0), gen.f32(0.01, 0.2), gen.f32(0.2, 0.999))),
         seed=draw(st.integers(0, 100_000)), cold=draw(st.booleans()),
         locality=draw(st.none() | st.integers(0, 7)), boundary=draw(st.booleans()),
+        random_order=draw(st.sampled_from([True, True, False])), n_calls=draw(st.sampled_from([1, 1, 2, 3])),
     )
     return c
 
